@@ -14,11 +14,11 @@ while read -r commit prop name; do
   git reset -q
   rm -rf /verif/replays
   out=$(cd /verif && VERIF_DIR=/verif ./check "$prop" quick 2>&1)
-  f=$(echo "$out" | grep -m1 '^VIOLATION' | sed 's/.*replay=\([^ ]*\).*/\1/')
-  if [ -n "$f" ] && [ -f "$f" ] && [[ "$f" == /verif/replays/* ]]; then
-    cp "$f" "/verif/regressions/$name.json"; echo "OK   $name <- $(basename "$f")"
-  elif echo "$out" | grep -q "regressions/$name.json (regression file reproduces"; then
+  f=$(echo "$out" | grep '^VIOLATION' | grep -m1 'replay=/verif/replays/' | sed 's/.*replay=\([^ ]*\).*/\1/')
+  if echo "$out" | grep -q "regressions/$name.json (regression file reproduces"; then
     echo "KEPT $name: the existing file still reproduces the defect with $commit reverted"
+  elif [ -n "$f" ] && [ -f "$f" ] && [[ "$f" == /verif/replays/* ]]; then
+    cp "$f" "/verif/regressions/$name.json"; echo "OK   $name <- $(basename "$f")"
   else
     echo "NONE $name: no violation with $commit reverted ($(echo "$out" | tail -1))"
   fi
